@@ -18,7 +18,16 @@ from rsx import ExtractError  # noqa: E402
 
 
 def idents(src, lo, hi):
-    return [t.text for t in src.toks[lo:hi] if t.kind == "ident"]
+    """identifiers used in [lo, hi) that can name a variable: not `_`, not a field/method name (preceded by `.`)"""
+    res = []
+    for i in range(lo, hi):
+        t = src.toks[i]
+        if t.kind != "ident" or t.text == "_":
+            continue
+        if src.toks[src.prev_sig(i)].text == "." and src.toks[src.prev_sig(src.prev_sig(i))].text != ".":
+            continue
+        res.append(t.text)
+    return res
 
 
 def bound_names_outside(src, fn_item, blk_lo, blk_hi):
@@ -124,8 +133,8 @@ def conflict_block_range(repo):
         raise ExtractError("conflict block: unexpected shape before else")
     ifopen = src.match(ifclose)
     cond = "".join(x.text for x in t[ifopen - 12:ifopen] if x.kind not in ("ws", "comment"))
-    if not cond.endswith("ifactions.is_empty()"):
-        raise ExtractError(f"conflict block: the guarding condition is no longer `if actions.is_empty()` ({cond[-40:]!r})")
+    # (the guard and the then-arm are no longer pinned here: the enclosing range reduce_block is verified with them,
+    #  so an edit of either surfaces as a failed obligation of reduce_block instead of an undecided unit)
     then_body = "".join(x.text for x in t[ifopen + 1:ifclose] if x.kind not in ("ws", "comment"))
     block_text = src.text[t[ob].e:t[cb].s]
     outside = bound_names_outside(src, fn, ob, cb + 1)
@@ -139,8 +148,6 @@ def conflict_block_range(repo):
     # log! statements inside are kept verbatim (none today)
     sha = hashlib.sha256(block_text.encode()).hexdigest()[:16]
     a, z = src.line_of(t[ob].s), src.line_of(t[cb].e)
-    if then_body != "actions.push(new_reduce.clone());":
-        raise ExtractError(f"conflict block: the no-conflict arm changed: {then_body!r}")
     meta = {"lift": "conflict_block", "file": rel, "lines": [a, z], "sha256_16": sha, "free_variables": declared}
     return block_text, then_body, meta
 
@@ -422,6 +429,63 @@ VERUS_LIFTS["lr_longest_block"] = lr_longest_block_range
 VERUS_LIFTS["glr_disamb_block"] = glr_disamb_block_range
 
 
+# ---------------------------------------------------------------------------
+# REDUCE placement (C01): the statement `for follow_symbol in item.follow.borrow().iter() { .. }` of
+# LRTable::calculate_reductions -- for every lookahead of a reducing item, the cell of that terminal receives the
+# reduction (directly if empty, through conflict resolution otherwise).  Contains the conflict_block range.
+
+REDUCE_DECLARED = ["item", "new_reduce", "prod", "self", "state"]
+
+
+def reduce_block_range(repo):
+    rel = "rustemo-compiler/src/table/mod.rs"
+    src = rsx.Source(os.path.join(repo, rel))
+    imp = src.find_impl(r"^impl < 'g , 's > LRTable < 'g , 's >", has="calculate_reductions")
+    fn = imp.child("fn", "calculate_reductions")
+    t = src.toks
+    fors = [i for i in range(fn.body_open, fn.body_close) if t[i].kind == "ident" and t[i].text == "for"
+            and norm_tokens_local(src, i, i + 16).startswith("forfollow_symbolinitem.follow.borrow().iter(){")]
+    if len(fors) != 1:
+        raise ExtractError("reduce block: `for follow_symbol in item.follow.borrow().iter() {` not found exactly once in calculate_reductions")
+    lo = fors[0]
+    ob = lo
+    while t[ob].text != "{":
+        ob += 1
+    hi = src.match(ob) + 1
+    before = _stmt_before(src, lo, fn)
+    if not before.endswith("}letnew_reduce=Action::Reduce(item.prod,item.position);"):
+        raise ExtractError("reduce block: the statement in front of the range changed: %r" % before[-120:])
+    # the range must be the last statement of the item loop's body
+    nxt = src.sig(hi)
+    if t[nxt].text != "}":
+        raise ExtractError("reduce block: statements follow the range inside the item loop")
+    # pin the loop headers and the bindings the free variables come from
+    head = "".join(x.text for x in t[fn.body_open + 1:lo] if x.kind not in ("ws", "comment"))
+    for need in ("forstatein&mutself.states{", "foriteminstate.items.iter().filter(|x|x.is_reducing()){", "letprod=&self.grammar.productions[item.prod];"):
+        if head.count(need) != 1:
+            raise ExtractError("reduce block: expected exactly one `%s` in front of the range" % need)
+    block_text = src.text[t[lo].s:t[hi - 1].e]
+    outside = bound_names_outside(src, fn, lo, hi)
+    used = set(idents(src, lo, hi))
+    inside = bound_names_inside(src, lo, hi)
+    free = sorted(((outside & used) - inside) | ({"self"} if "self" in used else set()))
+    if free != REDUCE_DECLARED:
+        raise ExtractError(f"reduce block: free variables changed: now {free}, declared {REDUCE_DECLARED}")
+    sha = hashlib.sha256(block_text.encode()).hexdigest()[:16]
+    a, z = src.line_of(t[lo].s), src.line_of(t[hi - 1].e)
+    meta = {"lift": "reduce_block", "file": rel, "lines": [a, z], "sha256_16": sha, "free_variables": REDUCE_DECLARED,
+            "note": "`state` is the loop variable of `for state in &mut self.states` (a `&mut LRState`), `item` the loop variable of `for item in "
+                    "state.items.iter().filter(|x| x.is_reducing())` (a `&LRItem` borrowed from state.items while state.actions is written: "
+                    "disjoint fields in the source, separate parameters here), `prod` is `&self.grammar.productions[item.prod]`, `new_reduce` is "
+                    "`Action::Reduce(item.prod, item.position)` (all pinned: a change is exit 2).  The range contains the conflict_block range."}
+    header = ("impl<'g, 's> LRTable<'g, 's> {\n    fn reduce_block(\n        &self,\n        state: &mut LRState<'g>,\n        item: &LRItem,\n"
+              "        prod: &Production,\n        new_reduce: Action,\n    ) {\n                ")
+    return header + block_text + "\n    }\n}\n", meta
+
+
+VERUS_LIFTS["reduce_block"] = reduce_block_range
+
+
 def lift_conflict_block(repo, gen):
     block_text, then_body, meta = conflict_block_range(repo)
     rel, declared, sha = meta["file"], meta["free_variables"], meta["sha256_16"]
@@ -510,6 +574,74 @@ impl<'g, 's> RecCtx<'g, 's> {{
     return meta
 
 
+# ---------------------------------------------------------------------------
+# sort_terminals (C06): the statements of the per-state body of LRTable::sort_terminals from `let term_prio =` to
+# `state.sorted_terminals = sorted_terminals;` -- the ordering (priority*1000 + specificity) and the finish flags.
+# Kani block lift only (Verus rejects `sort_by` with a capturing closure and `|=` on bool).
+
+SORT_DECLARED = ["self", "state", "terminals"]
+SORT_PREFIX = ("letmutterminals=state.actions.iter().enumerate().filter(|(_,actions)|!actions.is_empty())"
+               ".map(|(idx,_)|self.grammar.term_by_index(TermIndex(idx))).collect::<Vec<_>>();")
+
+
+def lift_sort_block(repo, gen):
+    rel = "rustemo-compiler/src/table/mod.rs"
+    src = rsx.Source(os.path.join(repo, rel))
+    imp = src.find_impl(r"^impl < 'g , 's > LRTable < 'g , 's >", has="sort_terminals")
+    fn = imp.child("fn", "sort_terminals")
+    t = src.toks
+    body_s = t[fn.body_open].e
+    body = src.text[body_s:t[fn.body_close].s]
+    a_lit, z_lit = "let term_prio =", "state.sorted_terminals = sorted_terminals;"
+    if body.count(a_lit) != 1 or body.count(z_lit) != 1:
+        raise ExtractError("sort block: anchors `let term_prio =` / `state.sorted_terminals = sorted_terminals;` not found exactly once")
+    lo_off = body_s + body.index(a_lit)
+    hi_off = body_s + body.index(z_lit) + len(z_lit)
+    lo = next(i for i in range(fn.body_open, fn.body_close) if t[i].s == lo_off)
+    hi = next(i for i in range(fn.body_open, fn.body_close + 1) if t[i].s >= hi_off)
+    head = "".join(x.text for x in t[fn.body_open + 1:lo] if x.kind not in ("ws", "comment"))
+    if head != "forstatein&mutself.states{" + SORT_PREFIX:
+        raise ExtractError("sort block: the statements in front of the range changed: %r" % head[:200])
+    tail = "".join(x.text for x in t[hi:fn.body_close] if x.kind not in ("ws", "comment"))
+    if tail != "}":
+        raise ExtractError("sort block: statements after the range: %r" % tail[:80])
+    block_text = src.text[lo_off:hi_off]
+    outside = bound_names_outside(src, fn, lo, hi)
+    used = set(idents(src, lo, hi))
+    inside = bound_names_inside(src, lo, hi)
+    free = sorted(((outside & used) - inside) | ({"self"} if "self" in used else set()))
+    if free != SORT_DECLARED:
+        raise ExtractError(f"sort block: free variables changed: now {free}, declared {SORT_DECLARED}")
+    sha = hashlib.sha256(block_text.encode()).hexdigest()[:16]
+    a, z = src.line_of(lo_off), src.line_of(hi_off)
+    out = f"""// GENERATED by /verif/tools/lift.py on every run -- do not edit.  BLOCK LIFT:
+// lines {a}-{z} of {rel} (sha256/16 {sha}): the statements of the per-state body of LRTable::sort_terminals from
+// `let term_prio =` to `state.sorted_terminals = sorted_terminals;`, verbatim, as a method whose receiver/parameters are
+// exactly the free variables of the range: {', '.join(SORT_DECLARED)}.  `terminals` is a local Vec<&Terminal> of the
+// source (the terminals that have actions in the state -- computed in front of the range, NOT part of it) and a by-value
+// parameter here; `self` and `state` are field-compatible RECORD types (the range reads
+// self.settings.lexical_disamb_most_specific and assigns state.sorted_terminals); Terminal is the real type.
+pub(super) struct SortSettings {{
+    pub lexical_disamb_most_specific: bool,
+}}
+pub(super) struct SortState {{
+    pub sorted_terminals: Vec<(TermIndex, bool)>,
+}}
+pub(super) struct SortCtx<'s> {{
+    pub settings: &'s SortSettings,
+}}
+impl<'s> SortCtx<'s> {{
+    #[allow(clippy::all)]
+    pub(super) fn sort_block(&self, mut terminals: Vec<&Terminal>, state: &mut SortState) {{
+            {block_text}
+    }}
+}}
+"""
+    os.makedirs(gen, exist_ok=True)
+    open(os.path.join(gen, "sort_block.rs"), "w").write(out)
+    return {"lift": "sort_block", "file": rel, "lines": [a, z], "sha256_16": sha, "free_variables": SORT_DECLARED}
+
+
 def lift_cli_mapping(repo, gen):
     rel = "rustemo-compiler/src/main.rs"
     src = rsx.Source(os.path.join(repo, rel))
@@ -555,7 +687,7 @@ fn lifted_cli_to_settings(cli: Cli, base: Settings) -> Settings {{
 
 
 def generate_all(repo, gen):
-    return [lift_conflict_block(repo, gen), lift_cli_mapping(repo, gen)]
+    return [lift_conflict_block(repo, gen), lift_cli_mapping(repo, gen), lift_sort_block(repo, gen)]
 
 
 if __name__ == "__main__":
